@@ -19,5 +19,7 @@ def enum_plans(tier):
             # two connections deliver undecodable bytes / are closed at the same instant (both signal the node within one cycle)
             dict(cfg="HOLD2", depth=5 if th else 4, maxtime=2, alpha=["cerok", "garbage2", "close2", "garbage"], faults=False, maxconn=2),
             dict(cfg="B", depth=6 if th else 5, maxtime=3, alpha=["ceaok", "dpr"], faults=True, maxconn=2),
+            # an application registered while the node runs (its peers connected already, or later)
+            dict(cfg="LATE", depth=6 if th else 5, maxtime=1, alpha=["cerok", "cer2", "addapp", "dpr"], faults=True, maxconn=2),
             # peers that spell their name differently in the CER (identities are case-insensitive)
             dict(cfg="HOLD2", depth=5 if th else 4, maxtime=1, alpha=["cerup", "req1", "dpr"], faults=True, maxconn=2)]
